@@ -417,6 +417,63 @@ def generate(seed, prof):
     return prog
 
 
+def revisit_program(rnd):
+    """A structured family the random generator rarely hits: a task that the scheduler reaches more than once in
+    ONE traversal (awaited by two parents, or written twice in one yield) is first found waiting for a batch;
+    a sibling then flushes that batch by hand (item.value()), so the next visit finds the task runnable: it
+    continues inside a context, blocks again - and other tasks (which read the overridden value) run next."""
+    site = [0]
+
+    def st(prefix):
+        site[0] += 1
+        return "%s%d" % (prefix, site[0])
+
+    def item(kind):
+        site[0] += 1
+        return ["leaf", ["item", kind, "k%d" % site[0]]]
+
+    k = rnd.randrange(2)
+    ctx = rnd.choice([["ov", "sv0", 300 + rnd.randrange(50)], ["attr", "at0", 400 + rnd.randrange(50)], ["actx", "rv"], ["ov", "sv0", rnd.choice([1, True, 0])]])
+    inner = [["yield", item(rnd.choice([k, 1 - k]))]]
+    if rnd.random() < 0.4:
+        inner.append(["yield", item(k)])
+    s_body = [["yield", item(k)], ["with", ctx, inner]]
+    if rnd.random() < 0.3:
+        s_body.insert(0, ["with", ["actx", "early"], [["yield", ["leaf", ["none"]]]]])
+    reader = [["read", "sv0"], ["read", "at0"]]
+    if rnd.random() < 0.6:
+        reader = [["with", ["actx", "rd"], [["yield", item(1 - k)]] + reader]] + reader
+    flusher = [["syncitem", st("y"), k, "kf%d" % rnd.randrange(100)]]
+    if rnd.random() < 0.5:
+        flusher.append(["read", "sv0"])
+    mode = rnd.choice(["two_parents", "two_parents", "twice_in_one_yield"])
+    nodes = [{"style": "asynq", "ret": "return", "body": []} for _ in range(6)]
+    # 5 = the task reached twice, 4 = the one that flushes by hand, 3 = the reader
+    nodes[5]["body"] = s_body
+    nodes[4]["body"] = flusher
+    nodes[3]["body"] = reader
+    if mode == "two_parents":
+        nodes[1]["body"] = [["yield", ["list", [["leaf", ["shared", 0]]]]], ["read", "sv0"]]
+        nodes[2]["body"] = [["yield", ["leaf", ["call", st("c"), 4]]], ["yield", ["tuple", [["leaf", ["shared", 0]]]]], ["read", "at0"]]
+        members = [["leaf", ["call", st("c"), 1]], ["leaf", ["call", st("c"), 2]], ["leaf", ["call", st("c"), 3]]]
+    else:
+        nodes[1]["body"] = [["yield", ["list", [["leaf", ["shared", 0]], ["leaf", ["call", st("c"), 4]], ["leaf", ["shared", 0]], ["leaf", ["call", st("c"), 3]]]]]]
+        nodes[2]["body"] = [["read", "sv0"]]
+        members = [["leaf", ["call", st("c"), 1]], ["leaf", ["call", st("c"), 2]]]
+    nodes[0]["body"] = [["yield", [rnd.choice(["list", "tuple"]), members]], ["read", "sv0"], ["read", "at0"]]
+    for node in nodes:
+        node["style"] = rnd.choice(["asynq", "asynq", "method", "proxy"])
+    return {
+        "nodes": nodes,
+        "root": 0,
+        "shared": [5],
+        "kinds": 2,
+        "faults": {},
+        "flush_faults": {},
+        "defaults": {"sv0": "dflt-sv0", "sv1": "dflt-sv1", "at0": "dflt-at0"},
+    }
+
+
 def strip_reads_under_shared(prog):
     """Remove read statements from all nodes reachable from a shared task."""
     seen = set()
